@@ -1,307 +1,761 @@
 """C07 — design-matrix regressors are linear, causal and shift-consistent.
 
-Correspondence: `_sample_condition`, `compute_regressor`, `_poly_drift`,
-`make_dmtx` names vs the Lean model (exact / 1e-9).  Oracle: the property
-clauses evaluated directly on the real code.
+Correspondence (model driver vs the real code, same inputs):
+  hrgrid / sample2 / compute2 / fir / tr   the high-resolution grid, `_sample_condition`,
+                                           `compute_regressor` from the frame times (exact class)
+  sample / compute                         the same with the implementation's grid as input
+  polydrift, driftcols                     `_poly_drift`, number of drift columns
+  mkdmtx                                   `make_dmtx` names, defaults and refusals, uniqueness flag
+  csvw / csvr                              `csv.writer` / `csv.reader` text layer of
+                                           `DesignMatrix.write_csv`, `dmtx_from_csv`, paradigm files
+  parwrite / parload / parconds            `write_to_csv`, `load_paradigm_from_csv_file`,
+                                           conditions handed to `compute_regressor`
+Oracle: the property clauses evaluated directly on the real code.
 """
 from __future__ import annotations
 
+import csv
+import io
 import os
 import tempfile
 import warnings
+from fractions import Fraction
 
 import numpy as np
 
 from harness.core import PropertyCheck
-from harness.util import Snapshot, all_close, cmp_rats, fr, frs, plist, parse_rats
+from harness.props import c07_gen as G
+from harness.util import Snapshot, all_close, cmp_rats, errname, fr, frs, plist, parse_rats
 
-def enc(name):
-    """protocol-safe spelling of a column name (the model only appends [a-z0-9_] suffixes)"""
-    return "".join(ch if (ch.isalnum() or ch == "_") else "%%%02X" % ord(ch) for ch in name)
-
-
-HRFS = ["canonical", "canonical with derivative", "spm", "spm_time", "spm_time_dispersion", "fir"]
-NK = {"canonical": 1, "canonical with derivative": 2, "spm": 1, "spm_time": 2,
-      "spm_time_dispersion": 3}
-# TRs for which the oversampled grid of _sample_condition is exactly uniform in binary64
-EXACT_TRS = [0.5, 1.0, 2.0, 4.0, 1.5, 3.0]
+HRFS, NK = G.HRFS, G.NK
 
 
-def _events(rng, n, tr, kind):
-    """dyadic onsets/durations/amplitudes; coincident and pre-scan events on purpose"""
-    total = n * tr
-    k = rng.choice([1, 1, 2, 3, 4, 6])
-    dt = tr / 16
-    onsets, durs, amps = [], [], []
-    for _ in range(k):
-        r = rng.random()
-        if r < 0.15 and onsets:
-            o = rng.choice(onsets)                      # coincident
-        elif r < 0.25:
-            o = -rng.choice([0.5, 1.0, 3.0, 30.0])      # pre-scan
-        elif r < 0.6:
-            o = rng.randrange(0, max(1, int(total / dt))) * dt   # on the hr grid
-        else:
-            o = rng.randrange(0, max(1, int(total / dt))) * dt + dt / 2   # strictly inside a cell
-        onsets.append(o)
-        durs.append(0.0 if kind == "event" else rng.choice([0.0, dt, tr / 2, tr, 2.5 * tr, 40 * tr]))
-        amps.append(rng.choice([1.0, 1.0, 2.0, 0.5, -1.0, 0.25, 3.0]))
-    return onsets, durs, amps
+def ustr(s):
+    """protocol spelling of a string: code points (matches NipyVerif.C07.encodeStr)"""
+    return "u" + ".".join(str(ord(ch)) for ch in s)
+
+
+def pstrs(xs):
+    xs = list(xs)
+    return " ".join([str(len(xs))] + [ustr(x) for x in xs])
+
+
+def opt_rats(xs):
+    return "none" if xs is None else "some " + plist(xs)
+
+
+def frames_of(c):
+    ft = c["t0"] + np.arange(c["n"]) * c["tr"]
+    dt = c.get("ftdtype", "float64")
+    if dt == "int64":
+        ft = ft.astype(np.int64)
+    elif dt == "float32":
+        if np.array_equal(ft.astype(np.float32).astype(np.float64), ft):
+            ft = ft.astype(np.float32)
+    elif dt == "float64-strided":
+        buf = np.zeros(2 * c["n"]); buf[::2] = ft; ft = buf[::2]
+    return ft
+
+
+def events_line(cond):
+    """events for the model; the duration is given as (float(onset + duration) - onset), i.e. the offset time
+    is the float the implementation computes (`onsets + durations` rounds for decimal values)"""
+    if not len(cond[0]):
+        return "0"
+    out = []
+    for o, d, a in zip(*cond):
+        off = Fraction(float(np.float64(o) + np.float64(d)))
+        out.append(f"{fr(o)} {fr(off - Fraction(float(o)))} {fr(a)}")
+    return f"{len(cond[0])} " + " ".join(out)
+
+
+def events_plain(cond):
+    return f"{len(cond[0])} " + " ".join(f"{fr(o)} {fr(d)} {fr(a)}" for o, d, a in zip(*cond)) if len(cond[0]) else "0"
+
+
+def as_cols(a, n):
+    a = np.atleast_2d(np.asarray(a, dtype=float))
+    return a if a.shape[0] == n else a.T
+
+
+def names_precondition(conds, hrf, fir_delays, addnames, driftnames):
+    """Python twin of `namesUnique` (Props/C07Names.dmtx_names_nodup_iff): exact precondition under
+    which the column names are pairwise distinct."""
+    conds = sorted(set(conds))
+    ok = True
+    if hrf not in HRFS:           # only reachable without a paradigm: no condition columns
+        hrf, conds = "canonical", []
+    if hrf in ("canonical with derivative", "spm_time", "spm_time_dispersion"):
+        ok &= not any(c == c2 + "_derivative" for c in conds for c2 in conds)
+    if hrf == "spm_time_dispersion":
+        ok &= not any(c == c2 + "_dispersion" for c in conds for c2 in conds)
+    if hrf == "fir":
+        ok &= (not conds) or len(set(fir_delays)) == len(fir_delays)
+    sfx = {"canonical": [""], "spm": [""], "canonical with derivative": ["", "_derivative"],
+           "spm_time": ["", "_derivative"], "spm_time_dispersion": ["", "_derivative", "_dispersion"],
+           "fir": ["_delay_%d" % d for d in fir_delays]}[hrf]
+    cc = {c + s for c in conds for s in sfx}
+    ok &= len(set(addnames)) == len(addnames)
+    ok &= not (cc & set(addnames)) and not (cc & set(driftnames)) and not (set(addnames) & set(driftnames))
+    return bool(ok)
 
 
 class C07(PropertyCheck):
     id = "C07"
     title = "Design-matrix regressors are linear, causal and shift-consistent"
-    lean_modules = ["NipyVerif.Props.C07"]
+    lean_modules = ["NipyVerif.Props.C07", "NipyVerif.Props.C07Grid", "NipyVerif.Props.C07Csv",
+                    "NipyVerif.Props.C07Par", "NipyVerif.Props.C07Names", "NipyVerif.Props.C07Source"]
     driver = "Drivers/C07.lean"
-    rule = ("cases are (frame grid, paradigm, hrf model, drift) tuples from a seeded PRNG; "
-            "non-trivial = at least two events or a multi-kernel/fir model or a drift of order >= 2; "
-            "distinct by full JSON of the case")
+    rule = ("cases are (frame grid incl. start/dtype, oversampling, min_onset, paradigm, hrf model, drift, "
+            "user regressors, names) tuples from a seeded PRNG, plus paradigm files (1-3 sessions) and "
+            "design matrices with adversarial column names; non-trivial = at least two events, or a "
+            "multi-kernel/fir model, or a start != 0, or a drift of order >= 2, or a refusal branch; "
+            "distinct by full JSON of the case. Paradigm files use plain condition names "
+            "[A-Za-z0-9_.-] (the loader guesses the dialect); design-matrix CSV names range over all "
+            "characters incl. quotes, delimiters, blanks, line breaks, the empty name")
     assumptions = [
         "gamma densities (scipy.stats.gamma.pdf) are a parameter: the kernels the implementation "
-        "computed are passed to the model as exact dyadic rationals",
+        "computed (observed at its own call of _hrf_kernel) are passed to the model as exact dyadic rationals",
         "scipy.interpolate.interp1d(kind=linear) is piecewise-linear interpolation (checked to 1e-9 per case)",
-        "np.convolve / np.cumsum are exact on the dyadic inputs generated (model is exact)",
-        "cosine-drift orthonormality (DCT-II identity) and CSV float repr round trip are checked numerically by the oracle, not proved",
+        "np.convolve / np.cumsum / np.linspace are exact on the dyadic inputs generated (model is exact); for "
+        "decimal TR / start the model is given the implementation's own high-resolution grid",
+        "cosine-drift orthonormality (DCT-II identity), kernel sums and the repr/float round trip of CSV values are "
+        "checked numerically by the oracle, not proved",
+        "csv.Sniffer (used by load_paradigm_from_csv_file, and by dmtx_from_csv as a fall-back) is external: the "
+        "dialect the implementation handed to csv.reader is observed and given to the model's reader",
+        "a CSV record containing line breaks inside quotes spans several physical lines which csv.reader joins; the "
+        "model reads the record as one character sequence (tied by the correspondence, not proved)",
     ]
+    level_note = ("proved for all inputs: superposition / causality / whole-scan shift end to end from the frame "
+                  "times (any start, TR, oversampling, min_onset <= 0), grid step and frame times on the grid, fir "
+                  "0/amplitude rows, Gram-Schmidt orthogonality (polynomial drift), CSV parse(format) = id over all "
+                  "characters, paradigm write/load round trip, exact uniqueness precondition of the column names. "
+                  "Numeric only: gamma kernels (parameters), cosine-drift orthonormality, kernel sums, float repr "
+                  "round trip, pinv-based orthogonalisation on ill-conditioned columns, csv.Sniffer")
     finding_keys = {}
 
-    def generate(self, rng, tier):
-        n_s, n_r, n_d, n_p = (300, 160, 120, 30) if tier == "quick" else (4000, 1500, 1200, 300)
-        cases = []
-        for _ in range(n_s):
-            n = rng.choice([2, 3, 4, 5, 8, 12])
-            tr = rng.choice(EXACT_TRS + [2.5, 0.75])
-            kind = rng.choice(["event", "block"])
-            on, du, am = _events(rng, n, tr, kind)
-            cases.append({"kind": "sample", "n": n, "tr": tr, "t0": rng.choice([0.0, 0.0, tr, 2 * tr]),
-                          "os": rng.choice([1, 2, 16]), "min_onset": rng.choice([-24.0, -24.0, 0.0, -2 * tr]),
-                          "onsets": on, "durs": du, "amps": am})
-        for _ in range(n_r):
-            n = rng.choice([3, 4, 6, 9])
-            tr = rng.choice(EXACT_TRS)
-            kind = rng.choice(["event", "block"])
-            on, du, am = _events(rng, n, tr, kind)
-            hrf = rng.choice(HRFS + ["fir", "fir"])
-            if hrf != "fir" and NK[hrf] > 1:
-                n = rng.choice([6, 9, 12])   # orthogonalisation by pinv is ill-conditioned on 3-4 rows
-            os_ = rng.choice([1, 2, 4]) if hrf == "fir" else rng.choice([2, 4, 16])
-            if rng.random() < 0.5:   # shift-testable: every onset strictly inside an hr cell, early in the run
-                dt = tr / os_
-                on = [(rng.randrange(0, max(1, (n // 2) * os_)) + 0.5) * dt for _ in on]
-            cases.append({"kind": "regressor", "n": n, "tr": tr, "hrf": hrf,
-                          "os": os_,
-                          "fir_delays": sorted(rng.sample(range(0, 5), rng.choice([1, 2, 3]))),
-                          "onsets": on, "durs": du, "amps": am, "shift": rng.choice([1, 2, 3])})
-        for _ in range(n_d):
-            n = rng.choice([4, 6, 10, 17, 32])
-            tr = rng.choice(EXACT_TRS)
-            ncond = rng.choice([1, 2, 3, 5])
-            kind = rng.choice(["event", "block"])
-            evs = []
-            for c in range(ncond):
-                on, du, am = _events(rng, n, tr, kind)
-                evs.append({"name": rng.choice(["a", "b", "c1", "cond_x", "face", "house", "face,upright", "a b",
-                                                    'say "x"', "semi;colon", "tab\there", "x'y", "1.5", "é"]) + str(c),
-                            "onsets": on, "durs": du, "amps": am})
-            cases.append({"kind": "dmtx", "n": n, "tr": tr, "hrf": rng.choice(HRFS), "ptype": kind,
-                          "conds": evs, "fir_delays": sorted(rng.sample(range(0, 6), rng.choice([1, 2, 4]))),
-                          "drift": rng.choice(["polynomial", "cosine", "blank"]),
-                          "order": rng.choice([0, 1, 2, 3, 5]),
-                          # cut-off periods below the Nyquist period 2*TR are excluded: they ask for more
-                          # cosine columns than scans, for which no orthonormal family exists
-                          "hfcut": rng.choice([h for h in [128, 32, 16, 8, 5, 2 * tr, 3 * tr] if h >= 2 * tr]),
-                          "nadd": rng.choice([0, 0, 1, 3]), "named_add": rng.random() < 0.5,
-                          "amp_none": rng.random() < 0.2})
-        for _ in range(n_p):
-            cases.append({"kind": "polydrift", "n": rng.choice([3, 5, 8, 13]),
-                          "tr": rng.choice(EXACT_TRS), "order": rng.choice([0, 1, 2, 3, 4])})
-        for tr in EXACT_TRS + [2.5, 0.8, 1.1]:
-            for os_ in ([16] if tier == "quick" else [1, 4, 16, 32]):
-                cases.append({"kind": "kernel", "tr": tr, "os": os_})
-        return cases
+    # ------------------------------------------------------------------ tie (a): source text -> Lean
+    def translators(self):
+        from harness.core import REPO, TieBroken
+        from harness.props import c07_translate
+        return c07_translate.translate(REPO, TieBroken)
 
-    # ------------------------------------------------------------------
+    # ------------------------------------------------------------------ generation
+    def generate(self, rng, tier):
+        q = tier == "quick"
+        n_s, n_r, n_d, n_p, n_par, n_csv = (700, 700, 450, 50, 220, 450) if q else (10000, 9000, 6000, 500, 2500, 6000)
+        cases = []
+        cases += G.gen_sample(rng, n_s)
+        cases += G.gen_regressor(rng, n_r)
+        cases += G.gen_dmtx(rng, n_d)
+        for _ in range(n_p):
+            tr = rng.choice(G.EXACT_TRS)
+            cases.append({"kind": "polydrift", "n": rng.choice([3, 5, 8, 13]), "tr": tr,
+                          "t0": rng.choice([0.0, 0.0, tr, -2 * tr, 10.0, 0.5]),
+                          "order": rng.choice([0, 1, 2, 3, 4])})
+        cases += G.gen_paradigm(rng, n_par)
+        cases += G.gen_csv(rng, n_csv)
+        for tr in G.EXACT_TRS[:6] + [2.5, 0.8, 1.1]:
+            for os_ in ([16] if q else [1, 4, 16, 32]):
+                cases.append({"kind": "kernel", "tr": tr, "os": os_})
+        for k in range(2 if q else 8):
+            cases.append({"kind": "show", "ncols": 1 + k % 4, "n": 5 + k, "rescale": k % 2 == 0})
+        # interleave the kinds (the harness reports the first few failures in case order)
+        by = {}
+        for cs in cases:
+            by.setdefault(cs["kind"], []).append(cs)
+        order = ["regressor", "paradigm", "csv", "dmtx", "sample", "polydrift", "kernel", "show"]
+        out, k = [], 0
+        while any(by.get(kd) for kd in order):
+            for kd in order:
+                if by.get(kd):
+                    out.append(by[kd].pop(0))
+        return out
+
+    # ------------------------------------------------------------------ dispatch
     def run_case(self, case):
         warnings.filterwarnings("ignore")
         from nipy.modalities.fmri import hemodynamic_models as hm
-        k = case["kind"]
-        return getattr(self, "_" + k)(case, hm)
+        r = getattr(self, "_" + case["kind"])(case, hm)
+        r.setdefault("mutated", None)
+        return r
 
+    # ------------------------------------------------------------------ _sample_condition
     def _sample(self, c, hm):
-        ft = c["t0"] + np.arange(c["n"]) * c["tr"]
-        cond = (np.array(c["onsets"]), np.array(c["durs"]), np.array(c["amps"]))
+        ft = frames_of(c)
+        cond = (np.array(c["onsets"], dtype=float), np.array(c["durs"], dtype=float), np.array(c["amps"], dtype=float))
         snap = Snapshot(ft=ft, on=cond[0], du=cond[1], am=cond[2])
-        reg, hr = hm._sample_condition(cond, ft, c["os"], c["min_onset"])
+        tags = ["sample", "exact-grid" if c["exact"] else "inexact-grid", "ft=" + c.get("ftdtype", "float64")]
+        ftl = plist(ft.tolist())
+        head = f"{ftl} {c['os']} {fr(c['min_onset'])}"
+        try:
+            reg, hr = hm._sample_condition(cond, ft, c["os"], c["min_onset"])
+        except Exception as e:
+            # refusal branches of the grid arithmetic: the model must refuse with the same kind
+            tags.append("grid-refusal")
+            lines, impl = [], []
+            if c["exact"]:
+                lines = [f"sample2 {head} {events_line(cond)}"]
+                impl = [("err", errname(e))]
+            degenerate = c["n"] < 2 or c["os"] < 1 or c["min_onset"] > 0
+            fail = None if degenerate else (f"_sample_condition raised {type(e).__name__}: {e} for n={c['n']} "
+                                            f"tr={c['tr']} t0={c['t0']} oversampling={c['os']} min_onset={c['min_onset']}")
+            return {"lines": lines, "impl": impl, "oracle": fail, "nontrivial": True, "tags": tags}
         mut = snap.changed()
-        ev = " ".join(f"{fr(o)} {fr(d)} {fr(a)}" for o, d, a in zip(*cond))
-        line = f"sample {plist(hr)} {len(cond[0])} {ev}"
+        if not (np.isfinite(reg).all() and np.isfinite(hr).all()):
+            return {"lines": [], "impl": [], "nontrivial": True, "tags": tags + ["non-finite"], "mutated": mut,
+                    "oracle": f"_sample_condition returned non-finite values for n={c['n']} tr={c['tr']} t0={c['t0']} "
+                              f"oversampling={c['os']} min_onset={c['min_onset']}"}
+        lines = [f"sample {plist(hr)} {events_line(cond)}"]
+        impl = [("exact", reg.tolist())]
+        if c["exact"]:
+            lines.append(f"sample2 {head} {events_line(cond)}")
+            impl.append(("exact2", (reg.tolist(), hr.tolist())))
         # oracle: superposition (amplitude-weighted sum of single-event regressors) and causality
-        tot = np.zeros_like(reg)
-        first = len(reg)
-        for o, d, a in zip(*cond):
-            single, _ = hm._sample_condition((np.array([o]), np.array([d]), np.array([1.0])),
-                                             ft, c["os"], c["min_onset"])
-            tot += a * single
-            first = min(first, int(min(np.searchsorted(hr, o), len(hr) - 1)))
         fail = None
-        if not np.array_equal(tot, reg):
-            j = int(np.nonzero(tot != reg)[0][0])
-            fail = (f"_sample_condition not additive: regressor[{j}]={reg[j]} but the amplitude-weighted "
-                    f"sum of single-event regressors is {tot[j]}")
-        elif np.any(reg[:first] != 0):
-            fail = f"_sample_condition non-zero before first onset index {first}"
-        tags = ["sample", "coincident" if len(set(c["onsets"])) < len(c["onsets"]) else "distinct-onsets"]
-        if min(c["onsets"]) < c["t0"] + c["min_onset"]:
-            tags.append("pre-scan")
-        return {"lines": [line], "impl": [("exact", reg.tolist())], "oracle": fail,
-                "nontrivial": len(c["onsets"]) >= 2, "tags": tags, "mutated": mut}
+        if len(cond[0]):
+            tot = np.zeros_like(reg)
+            first = len(reg)
+            for o, d, a in zip(*cond):
+                single, _ = hm._sample_condition((np.array([o]), np.array([d]), np.array([1.0])),
+                                                 ft, c["os"], c["min_onset"])
+                tot += a * single
+                first = min(first, int(min(np.searchsorted(hr, o), len(hr) - 1)))
+            if not np.array_equal(tot, reg):
+                j = int(np.nonzero(tot != reg)[0][0])
+                fail = (f"_sample_condition not additive: regressor[{j}]={reg[j]} but the amplitude-weighted "
+                        f"sum of single-event regressors is {tot[j]}")
+            elif np.any(reg[:first] != 0):
+                fail = f"_sample_condition non-zero before first onset index {first}"
+            tags.append("coincident" if len(set(c["onsets"])) < len(c["onsets"]) else "distinct-onsets")
+            if min(c["onsets"]) < c["t0"] + c["min_onset"]:
+                tags.append("pre-scan")
+        if c["min_onset"] > 0:
+            tags.append("positive-min-onset")
+        return {"lines": lines, "impl": impl, "oracle": fail,
+                "nontrivial": len(c["onsets"]) >= 2 or c["t0"] != 0, "tags": tags, "mutated": mut}
 
+    # ------------------------------------------------------------------ compute_regressor
     def _regressor(self, c, hm):
-        ft = np.arange(c["n"]) * c["tr"]
-        cond = (np.array(c["onsets"]), np.array(c["durs"]), np.array(c["amps"]))
-        hrf, os_ = c["hrf"], c["os"]
+        ft = frames_of(c)
+        n, tr, t0, os_, mo = c["n"], c["tr"], c["t0"], c["os"], c["min_onset"]
+        cond = (np.array(c["onsets"], dtype=float), np.array(c["durs"], dtype=float), np.array(c["amps"], dtype=float))
+        hrf = c["hrf"]
         snap = Snapshot(ft=ft, on=cond[0], du=cond[1], am=cond[2])
-        creg, names = hm.compute_regressor(cond, hrf, ft, con_id="c", oversampling=os_,
-                                           fir_delays=c["fir_delays"])
+        # observe the TR and the kernels at compute_regressor's own call of _hrf_kernel
+        seen = []
+        orig = hm._hrf_kernel
+
+        def spy(hrf_model, tr_, oversampling=16, fir_delays=None):
+            ks = orig(hrf_model, tr_, oversampling, fir_delays)
+            seen.append((float(tr_), oversampling, [np.array(k, dtype=float) for k in ks]))
+            return ks
+
+        def compute(cnd):
+            r, nm = hm.compute_regressor(cnd, hrf, ft, con_id="c", oversampling=os_,
+                                         fir_delays=c["fir_delays"], min_onset=mo)
+            return as_cols(r, n), nm
+
+        hm._hrf_kernel = spy
+        try:
+            creg, names = compute(cond)
+        except Exception as e:
+            return {"lines": [], "impl": [], "nontrivial": True, "tags": ["regressor", "raised"],
+                    "oracle": f"compute_regressor({hrf}) raised {type(e).__name__}: {e} (n={n}, tr={tr}, t0={t0}, "
+                              f"oversampling={os_}, min_onset={mo}, frametimes dtype {ft.dtype})"}
+        finally:
+            hm._hrf_kernel = orig
         mut = snap.changed()
-        creg = np.atleast_2d(creg)
-        if creg.shape[0] != c["n"]:
-            creg = creg.T
-        tr = float(ft.max()) / (ft.size - 1)
-        kernels = hm._hrf_kernel(hrf, tr, os_, c["fir_delays"])
-        _, hr = hm._sample_condition(cond, ft, os_, -24)
-        ev = " ".join(f"{fr(o)} {fr(d)} {fr(a)}" for o, d, a in zip(*cond))
+        tr_seen, _, kernels = seen[0]
+        if not (np.isfinite(creg).all() and np.isfinite(tr_seen) and all(np.isfinite(k).all() for k in kernels)):
+            return {"lines": [], "impl": [], "nontrivial": True, "tags": ["regressor", "non-finite"], "mutated": mut,
+                    "oracle": f"compute_regressor({hrf}) is not finite (TR handed to the kernels: {tr_seen}; n={n}, "
+                              f"tr={tr}, t0={t0}, oversampling={os_}, min_onset={mo})"}
+        hr_reg, hr = hm._sample_condition(cond, ft, os_, mo)
         ks = " ".join(plist(h) for h in kernels)
         # conditioning of the un-orthogonalised columns (built from the implementation's own pieces):
         # _orthogonalize projects with pinv, whose rcond cut-off an exact model cannot mimic on
         # (nearly) rank-deficient columns; there the model is compared before orthogonalisation.
-        hr_reg, _ = hm._sample_condition(cond, ft, os_, -24)
         conv = np.array([np.convolve(hr_reg, h)[:hr_reg.size] for h in kernels])
-        pre = np.atleast_2d(hm._resample_regressor(conv, hr, ft))
-        pre = pre if pre.shape[0] == c["n"] else pre.T
+        pre = as_cols(hm._resample_regressor(conv, hr, ft), n)
         sv = np.linalg.svd(pre, compute_uv=False)
         well = hrf == "fir" or len(kernels) == 1 or (sv.max() > 0 and sv.min() / sv.max() > 1e-3)
         orth_flag = 1 if (hrf != "fir" and well) else 0
         target = creg if (well or hrf == "fir") else pre
-        line = (f"compute {plist(hr)} {len(cond[0])} {ev} {len(kernels)} {ks} {plist(ft)} {orth_flag}")
+        ftl = plist(ft.tolist())
+        lines = [f"tr {ftl}"]
+        impl = [("rat", tr_seen, 0.0 if c["exact"] else 1e-12)]
+        if c["exact"]:
+            lines.append(f"compute2 {ftl} {os_} {fr(mo)} {events_line(cond)} {len(kernels)} {ks} {orth_flag}")
+            impl.append(("cols", target.T.tolist()))
+            if hrf == "fir":
+                # the model's own fir kernels: exactly 0 / amplitude blocks (Props/C07Grid.fir_event_row)
+                lines.append(f"fir {ftl} {os_} {fr(mo)} {events_line(cond)} {plist(c['fir_delays'])}")
+                impl.append(("cols", creg.T.tolist()))
+        else:
+            lines.append(f"compute {plist(hr)} {events_line(cond)} {len(kernels)} {ks} {ftl} {orth_flag}")
+            impl.append(("cols", target.T.tolist()))
         fail = None
+        single_basis = hrf == "fir" or NK[hrf] == 1
+        scale = max(1.0, float(np.abs(creg).max()))
         if len(names) != creg.shape[1] or len(set(names)) != len(names):
             fail = f"compute_regressor: {creg.shape[1]} columns but names {names}"
         # linearity for single-basis models (orthogonalisation is a no-op there) and fir
-        if fail is None and (hrf == "fir" or NK[hrf] == 1):
+        if fail is None and single_basis:
             tot = np.zeros_like(creg)
             for o, d, a in zip(*cond):
-                s, _ = hm.compute_regressor((np.array([o]), np.array([d]), np.array([1.0])), hrf, ft,
-                                            con_id="c", oversampling=os_, fir_delays=c["fir_delays"])
-                s = np.atleast_2d(s)
-                s = s if s.shape[0] == c["n"] else s.T
+                s, _ = compute((np.array([o]), np.array([d]), np.array([1.0])))
                 tot += a * s
             if not np.allclose(tot, creg, rtol=1e-9, atol=1e-9):
                 j = np.unravel_index(np.argmax(np.abs(tot - creg)), creg.shape)
                 fail = (f"compute_regressor({hrf}) not the amplitude-weighted sum of single-event "
                         f"regressors at row {j[0]} col {j[1]}: {creg[j]} vs {tot[j]}")
-        # shift consistency: onsets strictly inside hr cells, non-negative, whole-scan delay
-        dt = c["tr"] / os_
-        inside = all(o >= 0 and abs((o / dt) % 1 - 0.5) < 1e-12 for o in c["onsets"])
+        # causality: rows whose frame time is earlier than every onset are zero
+        dt = tr / os_
+        ftf = np.asarray(ft, dtype=float)
+        if fail is None and single_basis:
+            early = ftf < (cond[0].min() - 1e-9 * max(1.0, abs(t0)))
+            if np.any(np.abs(creg[early]) > 1e-12 * scale):
+                r = int(np.nonzero(np.abs(creg[early]).max(axis=1) > 1e-12 * scale)[0][0])
+                fail = (f"compute_regressor({hrf}): row {r} (t={ftf[r]}) is non-zero although every onset is later "
+                        f"(first onset {cond[0].min()})")
+        # shift consistency under the hypotheses of Props/C07Grid.regressor_shift_whole_scans:
+        # no event earlier than t0 + min_onset, the delayed events end one hr step before the grid end;
+        # for decimal grids the onsets are moreover strictly inside hr cells (no knife-edge searchsorted)
         m = c["shift"]
-        if fail is None and inside and (hrf == "fir" or NK[hrf] == 1) and m < c["n"]:
-            cond2 = (cond[0] + m * c["tr"], cond[1], cond[2])
-            s, _ = hm.compute_regressor(cond2, hrf, ft, con_id="c", oversampling=os_,
-                                        fir_delays=c["fir_delays"])
-            s = np.atleast_2d(s)
-            s = s if s.shape[0] == c["n"] else s.T
-            if not np.allclose(s[m:], creg[: c["n"] - m], rtol=1e-9, atol=1e-9) or \
-               not np.allclose(s[:m], 0, atol=1e-12):
-                fail = (f"delaying onsets by {m} scans does not delay the {hrf} regressor by {m} rows")
-        tags = ["regressor", "hrf=" + hrf.replace(" ", "_")] + (["shift-tested"] if inside else [])
+        inside = all(abs(((o - t0) / dt) % 1 - 0.5) < 1e-6 and abs(((o + d - t0) / dt) % 1 - 0.5) < 1e-6
+                     for o, d in zip(c["onsets"], c["durs"]))
+        hyp = (mo <= 0 and all(o >= t0 + mo for o in c["onsets"]) and m < n and
+               all(o + d + m * tr + dt <= t0 + n * tr + 1e-9 for o, d in zip(c["onsets"], c["durs"])))
+        shift_tested = fail is None and single_basis and hyp and (c["exact"] or inside)
+        if shift_tested:
+            s, _ = compute((cond[0] + m * tr, cond[1], cond[2]))
+            if not np.allclose(s[m:], creg[: n - m], rtol=1e-9, atol=1e-9 * scale):
+                j = np.unravel_index(np.argmax(np.abs(s[m:] - creg[: n - m])), creg[: n - m].shape)
+                fail = (f"delaying onsets by {m} scans does not delay the {hrf} regressor by {m} rows "
+                        f"(tr={tr}, t0={t0}, oversampling={os_}, min_onset={mo}): row {j[0] + m} is {s[m:][j]} "
+                        f"but row {j[0]} of the undelayed regressor is {creg[: n - m][j]}")
+            elif all(o > t0 - tr for o in c["onsets"]) and not np.allclose(s[:m], 0, atol=1e-12 * scale):
+                fail = f"delaying onsets by {m} scans: the first {m} rows of the {hrf} regressor are not zero"
+        tags = ["regressor", "hrf=" + hrf.replace(" ", "_"), "exact-grid" if c["exact"] else "inexact-grid",
+                "ft=" + c.get("ftdtype", "float64")] + (["shift-tested"] if shift_tested else [])
         tags.append("orth-compared" if orth_flag else "pre-orth-compared")
-        return {"lines": [line], "impl": [("cols", target.T.tolist())], "oracle": fail,
-                "nontrivial": len(c["onsets"]) >= 2 or hrf == "fir" or NK[hrf] > 1,
+        if t0 != 0:
+            tags.append("start!=0")
+        q = Fraction(-mo) * os_ / Fraction(tr)
+        tags.append("min_onset-whole-steps" if q.denominator == 1 else "min_onset-fractional-steps")
+        return {"lines": lines, "impl": impl, "oracle": fail,
+                "nontrivial": len(c["onsets"]) >= 2 or hrf == "fir" or NK[hrf] > 1 or t0 != 0,
                 "tags": tags, "mutated": mut}
 
-    def _dmtx(self, c, hm):
-        from nipy.modalities.fmri import design_matrix as dm
+    # ------------------------------------------------------------------ make_dmtx
+    def _paradigm_of(self, c):
         from nipy.modalities.fmri.experimental_paradigm import BlockParadigm, EventRelatedParadigm
-        ft = np.arange(c["n"]) * c["tr"]
         ids, on, du, am = [], [], [], []
         for cd in c["conds"]:
             for o, d, a in zip(cd["onsets"], cd["durs"], cd["amps"]):
                 ids.append(cd["name"]); on.append(o); du.append(d); am.append(a)
         amp = None if c["amp_none"] else am
         if c["ptype"] == "event":
-            par = EventRelatedParadigm(ids, on, amp)
-        else:
-            par = BlockParadigm(ids, on, du, amp)
-        rs = np.random.RandomState(c["n"] * 7 + c["nadd"])
-        add = rs.randint(-4, 5, size=(c["n"], c["nadd"])).astype(float) if c["nadd"] else None
-        addn = [["mot", "trans,x", "rot y", "reg;z"][k % 4] + str(k) for k in range(c["nadd"])] \
-            if (c["named_add"] and c["nadd"]) else None
-        snap = Snapshot(ft=ft, add=add if add is not None else 0)
-        try:
-            d = dm.make_dmtx(ft, par, c["hrf"], c["drift"], c["hfcut"], c["order"], c["fir_delays"],
-                             add, addn)
-        except Exception as e:
-            return {"lines": [], "impl": [], "nontrivial": True, "tags": ["dmtx", "raised"],
-                    "oracle": f"make_dmtx raised {type(e).__name__}: {e} on a valid specification "
-                              f"(drift={c['drift']}, hfcut={c['hfcut']}, n={c['n']}, tr={c['tr']})"}
-        mut = snap.changed()
-        X, names = d.matrix, d.names
-        drift, dn = dm._make_drift(c["drift"], ft, c["order"], c["hfcut"])
-        nd = drift.shape[1]
-        conds = sorted({cd["name"] for cd in c["conds"]})
-        hrf_tok = c["hrf"].replace(" ", "_")
-        addnames = addn if addn is not None else [f"reg{k}" for k in range(c["nadd"])]
-        line = (f"names {hrf_tok} {len(conds)} {' '.join(map(enc, conds))} {plist(c['fir_delays'])} "
-                f"{len(addnames)} {' '.join(map(enc, addnames))} {nd}").replace("  ", " ")
-        fail = None
-        if X.shape != (c["n"], len(names)):
-            fail = f"make_dmtx: matrix shape {X.shape} vs {len(names)} names"
-        elif len(set(names)) != len(names):
-            fail = f"make_dmtx: duplicate column names {names}"
-        elif names[-1] != "constant" or not np.allclose(X[:, -1], X[0, -1]) or X[0, -1] == 0:
-            fail = "make_dmtx: last column is not a non-zero constant named 'constant'"
-        else:
-            D = drift[:, :-1]
-            if c["drift"] == "cosine" and D.shape[1]:
-                G = D.T @ D
-                if not np.allclose(G, np.eye(G.shape[0]), atol=1e-9):
-                    fail = "cosine drift columns are not orthonormal"
-                elif not np.allclose(D.T @ np.ones(c["n"]), 0, atol=1e-9):
-                    fail = "cosine drift columns are not orthogonal to the constant"
-            if c["drift"] == "polynomial" and nd >= 2:
-                G = drift.T @ drift
-                off = G - np.diag(np.diag(G))
-                if np.abs(off).max() > 1e-8 * max(1.0, np.abs(G).max()):
-                    fail = f"polynomial drift columns not mutually orthogonal (max off-diag {np.abs(off).max()})"
-        if fail is None:
-            tmp = tempfile.mkdtemp(prefix="c07-")
-            try:
-                p = os.path.join(tmp, "d.csv")
-                try:
-                    d.write_csv(p)
-                    d2 = dm.dmtx_from_csv(p)
-                    if list(d2.names) != list(names) or not np.array_equal(d2.matrix, X):
-                        fail = f"CSV round trip does not reproduce names and values (names {list(names)} -> {list(d2.names)})"
-                except Exception as e:
-                    fail = f"CSV round trip of names {list(names)} raised {type(e).__name__}: {e}"
-            finally:
-                for f in os.listdir(tmp):
-                    os.unlink(os.path.join(tmp, f))
-                os.rmdir(tmp)
-        tags = ["dmtx", "drift=" + c["drift"], "hrf=" + hrf_tok, "ptype=" + c["ptype"]]
-        return {"lines": [line], "impl": [("names", [enc(x) for x in names])], "oracle": fail,
-                "nontrivial": True, "tags": tags, "mutated": mut}
+            return EventRelatedParadigm(ids, on, amp), ("event", ids, on, None, amp)
+        return BlockParadigm(ids, on, du, amp), ("block", ids, on, du, amp)
 
+    @staticmethod
+    def _par_line(spec):
+        kind, ids, on, du, amp = spec
+        s = f"{kind} {pstrs(ids)} {plist(on)}"
+        if kind == "block":
+            s += " " + opt_rats(du)
+        return s + " " + opt_rats(amp)
+
+    def _dmtx(self, c, hm):
+        from nipy.modalities.fmri import design_matrix as dm
+        n = c["n"]
+        ft = frames_of(c)
+        if c.get("ftdtype") == "list":
+            ft = ft.tolist()
+        ftf = np.asarray(ft, dtype=float)
+        par, pspec = (None, None) if c["paradigm_none"] else self._paradigm_of(c)
+        rs = np.random.RandomState(n * 7 + len(c["conds"]))
+        a = c["add"]
+        if a["mode"] == "none":
+            add = None
+        elif a["mode"] == "vector":
+            add = rs.randint(-4, 5, size=(n + a.get("rows_off", 0),)).astype(float)
+        else:
+            add = rs.randint(-4, 5, size=(n + a.get("rows_off", 0), a["ncols"])).astype(float)
+        addn = c["add_names"]
+        kw = {}
+        if c["use_min_onset"]:
+            kw["min_onset"] = c["min_onset"] if c["min_onset"] <= 0 else -24
+        snap = Snapshot(ft=ft, add=add if add is not None else 0, addn=addn if addn is not None else 0,
+                        fd=c["fir_delays"])
+        hrf_l, drift_l = c["hrf"].lower(), c["drift"].lower()
+        # model line
+        sh = "none" if add is None else f"some {add.shape[0]} {add.size}"
+        an = "none" if addn is None else "some " + pstrs(addn)
+        pl = "none" if pspec is None else "some " + self._par_line(pspec)
+        dt_ = ftf[1] - ftf[0]
+        line = (f"mkdmtx {n} {fr(dt_)} {pl} {ustr(c['hrf'])} {ustr(c['drift'])} {fr(c['hfcut'])} {c['order']} "
+                f"{plist(c['fir_delays'])} {sh} {an}")
+        # the float floor of the cosine order is only compared where it cannot sit on an integer boundary
+        # (unless every float operation of `2*len_tim*(1/period_cut)*dt` is exact)
+        qcos = Fraction(2 * n) * Fraction(float(dt_)) / Fraction(float(c["hfcut"]))
+        hf = Fraction(float(c["hfcut"]))
+        pow2 = (hf.numerator == 1 or hf.denominator == 1) and \
+            (hf.numerator & (hf.numerator - 1)) == 0 and (hf.denominator & (hf.denominator - 1)) == 0
+        cos_fragile = drift_l == "cosine" and abs(qcos - round(qcos)) < Fraction(1, 10 ** 9) and \
+            not (pow2 and c["exact"])
+        tags = ["dmtx", "drift=" + drift_l, "hrf=" + hrf_l.replace(" ", "_"), "ptype=" + c["ptype"],
+                "add=" + a["mode"] + ("-badrows" if a.get("rows_off") else ""),
+                "addnames=" + ("none" if addn is None else "given")]
+        if c["paradigm_none"]:
+            tags.append("paradigm-none")
+        if c["t0"] != 0:
+            tags.append("start!=0")
+        tmp = tempfile.mkdtemp(prefix="c07-")
+        try:
+            try:
+                if c["light"]:
+                    X, names = dm.dmtx_light(ft, par, c["hrf"], c["drift"], c["hfcut"], c["order"], c["fir_delays"],
+                                             add, addn, path=os.path.join(tmp, "light.csv"), **kw)
+                    d = dm.DesignMatrix(X, names, ftf)
+                    tags.append("dmtx_light")
+                else:
+                    d = dm.make_dmtx(ft, par, c["hrf"], c["drift"], c["hfcut"], c["order"], c["fir_delays"],
+                                     add, addn, **kw)
+            except Exception as e:
+                mut = snap.changed()
+                tags.append("refused")
+                expected = (hrf_l not in HRFS and par is not None) or drift_l not in ("polynomial", "cosine", "blank") \
+                    or (add is not None and add.shape[0] != n) \
+                    or (addn is not None and len(addn) != (0 if add is None else (1 if add.ndim == 1 else add.shape[1])))
+                fail = None if expected else (
+                    f"make_dmtx raised {type(e).__name__}: {e} on a valid specification (hrf={c['hrf']}, "
+                    f"drift={c['drift']}, hfcut={c['hfcut']}, n={n}, tr={c['tr']}, t0={c['t0']}, frametimes "
+                    f"{c.get('ftdtype')})")
+                return {"lines": [line], "impl": [("err", errname(e))], "oracle": fail, "nontrivial": True,
+                        "tags": tags, "mutated": mut}
+            mut = snap.changed()
+            X, names = d.matrix, list(d.names)
+            drift, dn = dm._make_drift(drift_l, ftf, c["order"], c["hfcut"])
+            nd = drift.shape[1]
+            uniq = len(set(names)) == len(names)
+            lines, impl = [], []
+            if not cos_fragile:
+                lines.append(line)
+                impl.append(("text", pstrs(names) + " | unique=" + ("1" if uniq else "0")))
+            else:
+                tags.append("cosine-order-on-integer-boundary")
+            nadd = 0 if add is None else (1 if add.ndim == 1 else add.shape[1])
+            addnames = [] if add is None else (addn if addn is not None else ["reg%d" % k for k in range(nadd)])
+            condnames = [] if par is None else [cd["name"] for cd in c["conds"]]
+            pre = names_precondition(condnames, hrf_l, c["fir_delays"], addnames, dn)
+            tags.append("names-precondition" if pre else "names-collide")
+            fail = None
+            if X.shape != (n, len(names)):
+                fail = f"make_dmtx: matrix shape {X.shape} vs {len(names)} names"
+            elif pre and not uniq:
+                fail = f"make_dmtx: duplicate column names {names} although conditions, user names and drifts do not clash"
+            elif names[-1] != "constant" or not np.allclose(X[:, -1], X[0, -1]) or X[0, -1] == 0:
+                fail = "make_dmtx: last column is not a non-zero constant named 'constant'"
+            elif nadd and not np.array_equal(X[:, len(names) - nd - nadd: len(names) - nd],
+                                             add.reshape(n, nadd)) and np.linalg.cond(X) < 1e14:
+                fail = "make_dmtx: the user regressors are not the columns between conditions and drifts"
+            else:
+                D = drift[:, :-1]
+                if drift_l == "cosine" and D.shape[1]:
+                    Gm = D.T @ D
+                    if not np.allclose(Gm, np.eye(Gm.shape[0]), atol=1e-9):
+                        fail = "cosine drift columns are not orthonormal"
+                    elif not np.allclose(D.T @ np.ones(n), 0, atol=1e-9):
+                        fail = "cosine drift columns are not orthogonal to the constant"
+                if drift_l == "polynomial" and nd >= 2:
+                    Gm = drift.T @ drift
+                    off = Gm - np.diag(np.diag(Gm))
+                    if np.abs(off).max() > 1e-8 * max(1.0, np.abs(Gm).max()):
+                        fail = f"polynomial drift columns not mutually orthogonal (max off-diag {np.abs(off).max()})"
+            # conditions handed to compute_regressor, observed at make_dmtx's own calls
+            if par is not None and hrf_l in HRFS:
+                l2, i2 = self._conds_lines(dm, par, pspec, hrf_l, ftf, c["fir_delays"])
+                lines += l2; impl += i2
+            # CSV: text layer tie + round trip
+            l3, i3, f3, t3 = self._csv_roundtrip(dm, d, tmp)
+            lines += l3; impl += i3; tags += t3
+            fail = fail or f3
+        finally:
+            for f in os.listdir(tmp):
+                os.unlink(os.path.join(tmp, f))
+            os.rmdir(tmp)
+        return {"lines": lines, "impl": impl, "oracle": fail, "nontrivial": True, "tags": tags, "mutated": mut}
+
+    def _conds_lines(self, dm, par, pspec, hrf_l, ftf, fir_delays):
+        """`parconds`: the (onsets, durations, amplitudes) per condition that `_convolve_regressors` hands to
+        `compute_regressor`, in its order"""
+        seen = []
+        orig = dm.compute_regressor
+
+        def spy(exp_condition, hrf_model, frametimes, con_id='cond', **kw):
+            on, du, am = (np.asarray(x, dtype=float) for x in exp_condition)
+            seen.append((str(con_id), on.tolist(), du.tolist(), am.tolist()))
+            return orig(exp_condition, hrf_model, frametimes, con_id=con_id, **kw)
+
+        dm.compute_regressor = spy
+        try:
+            dm._convolve_regressors(par, hrf_l, ftf, fir_delays)
+        except Exception as e:
+            return [f"parconds {self._par_line(pspec)}"], [("err", errname(e))]
+        finally:
+            dm.compute_regressor = orig
+        txt = " ; ".join(f"{ustr(cid)} {events_plain((on, du, am))}" for cid, on, du, am in seen)
+        return [f"parconds {self._par_line(pspec)}"], [("text", txt)]
+
+    def _csv_roundtrip(self, dm, d, tmp):
+        """write_csv -> dmtx_from_csv: format / parse tied to the model, round trip as oracle"""
+        names, X = list(d.names), d.matrix
+        lines, impl, tags, fail = [], [], [], None
+        p = os.path.join(tmp, "d.csv")
+        try:
+            d.write_csv(p)
+        except Exception as e:
+            return [], [], f"write_csv of names {names} raised {type(e).__name__}: {e}", ["csv-write-raised"]
+        with open(p, newline='') as f:
+            phys = f.readlines()
+        with open(p, newline='') as f:
+            rd = csv.reader(f)
+            try:
+                next(rd)
+                nhead = rd.line_num
+            except StopIteration:
+                nhead = len(phys)
+        header_raw = "".join(phys[:nhead])
+        lines.append(f"csvw 44 {pstrs(names)}")
+        impl.append(("text", ustr(header_raw)))
+        # the dialect dmtx_from_csv hands to csv.reader
+        seen = []
+        orig = csv.reader
+
+        def spy(f, dialect='excel', *a, **kw):
+            dd = csv.get_dialect(dialect) if isinstance(dialect, str) else dialect
+            seen.append((dd.delimiter, dd.quotechar or '"', bool(dd.doublequote), bool(dd.skipinitialspace)))
+            return orig(f, dialect, *a, **kw)
+
+        csv.reader = spy
+        try:
+            d2 = dm.dmtx_from_csv(p)
+            n2, X2 = list(d2.names), d2.matrix
+            err = None
+        except Exception as e:
+            err = e
+        finally:
+            csv.reader = orig
+        if err is not None:
+            tags.append("csv-read-raised")
+            if X.shape[1] > 0:
+                fail = f"CSV round trip of names {names} ({X.shape[0]} rows) raised {type(err).__name__}: {err}"
+            return lines, impl, fail, tags
+        dl, q, dq, sk = seen[-1]
+        tags.append("csv-dialect=" + ("excel" if (dl, q, sk) == (",", '"', False) else "other"))
+        lines.append(f"csvr {ord(dl)} {ord(q)} {int(dq)} {int(sk)} {ustr(header_raw)}")
+        impl.append(("text", pstrs(n2)))
+        if n2 != names or X2.shape != X.shape or not np.array_equal(X2, X):
+            fail = f"CSV round trip does not reproduce names and values (names {names} -> {n2})"
+        if any(ch in nm for nm in names for ch in '",;\t \n\r') or "" in names:
+            tags.append("csv-adversarial-names")
+        return lines, impl, fail, tags
+
+    def _csv(self, c, hm):
+        from nipy.modalities.fmri import design_matrix as dm
+        names = c["names"]
+        X = np.array(c["values"], dtype=float).reshape(len(c["values"]), len(names))
+        d = dm.DesignMatrix(X, names)
+        snap = Snapshot(X=X, names=names)
+        tmp = tempfile.mkdtemp(prefix="c07-")
+        try:
+            lines, impl, fail, tags = self._csv_roundtrip(dm, d, tmp)
+        finally:
+            for f in os.listdir(tmp):
+                os.unlink(os.path.join(tmp, f))
+            os.rmdir(tmp)
+        return {"lines": lines, "impl": impl, "oracle": fail, "nontrivial": len(names) >= 1,
+                "tags": ["csv"] + tags, "mutated": snap.changed()}
+
+    # ------------------------------------------------------------------ paradigm I/O
+    def _paradigm(self, c, hm):
+        from nipy.modalities.fmri import design_matrix as dm
+        from nipy.modalities.fmri import experimental_paradigm as ep
+        tags = ["paradigm", "sessions=%d" % len(c["sessions"])]
+        lines, impl, fail = [], [], None
+        tmp = tempfile.mkdtemp(prefix="c07-")
+        ft = np.asarray(frames_of(c), dtype=float)
+        try:
+            pars, raw_all = [], ""
+            for k, s in enumerate(c["sessions"]):
+                if s["ptype"] == "event":
+                    par = ep.EventRelatedParadigm(s["ids"], s["onsets"], s["amps"])
+                    spec = ("event", s["ids"], s["onsets"], None, s["amps"])
+                else:
+                    par = ep.BlockParadigm(s["ids"], s["onsets"], s["durs"], s["amps"])
+                    spec = ("block", s["ids"], s["onsets"], s["durs"], s["amps"])
+                pars.append((par, spec))
+                p1 = os.path.join(tmp, f"s{k}.csv")
+                snap = Snapshot(ids=par.con_id, on=par.onset)
+                par.write_to_csv(p1, s["id"])
+                if snap.changed():
+                    return {"lines": [], "impl": [], "oracle": None, "tags": tags, "mutated": snap.changed()}
+                with open(p1, newline='') as f:
+                    raw = f.read()
+                raw_all += raw
+                # rows written (numbers through float()) vs the model's rows
+                rows = list(csv.reader(io.StringIO(raw, newline=''), delimiter=' '))
+                obs = " ; ".join(" ".join([str(len(r)), ustr(r[0]), ustr(r[1])] + [fr(float(x)) for x in r[2:]])
+                                 for r in rows)
+                lines.append(f"parwrite {ustr(s['id'])} {self._par_line(spec)}")
+                impl.append(("text", obs))
+                # text layer of the first rows: the model's writer reproduces the raw line
+                for r, rawline in list(zip(rows, raw.splitlines(keepends=True)))[:2]:
+                    lines.append(f"csvw 32 {pstrs(r)}")
+                    impl.append(("text", ustr(rawline)))
+            mal = c["malformed"]
+            if mal == "empty-file":
+                raw_all = ""
+            elif mal == "three-columns":
+                raw_all = "".join(" ".join(ln.split(" ")[:3]) + "\r\n" for ln in raw_all.splitlines()
+                                  if '"' not in ln)
+                if not raw_all:
+                    mal = None
+            ncolset = {len(r) for r in csv.reader(io.StringIO(raw_all, newline=''), delimiter=' ')}
+            ragged = len(ncolset) > 1
+            if ragged:
+                tags.append("ragged")
+            if mal:
+                tags.append(mal)
+            path = os.path.join(tmp, "all.csv")
+            with open(path, "w", newline='') as f:
+                f.write(raw_all)
+            want = [s["id"] for s in c["sessions"]]
+            if mal == "absent-session":
+                want = ["nope"]
+            if c["load_session"] == "none":
+                want = [None]
+            for sid in want:
+                # the dialect the loader hands to csv.reader
+                seen = []
+                orig = csv.reader
+
+                def spy(f, dialect='excel', *a, **kw):
+                    dd = csv.get_dialect(dialect) if isinstance(dialect, str) else dialect
+                    seen.append(dd)
+                    return orig(f, dialect, *a, **kw)
+
+                csv.reader = spy
+                try:
+                    got = ep.load_paradigm_from_csv_file(path, sid)
+                    err = None
+                except Exception as e:
+                    err = e
+                finally:
+                    csv.reader = orig
+                # the rows as the loader's reader sees them
+                rows = []
+                if seen:
+                    rows = list(orig(io.StringIO(raw_all, newline=''), seen[-1]))
+                try:
+                    rl = " ".join([str(len(rows))] + [" ".join([str(len(r)), ustr(r[0]), ustr(r[1])] +
+                                                              [fr(float(x)) for x in r[2:5]]) for r in rows])
+                    model_ok = all(len(r) >= 3 for r in rows)
+                except (ValueError, IndexError):
+                    model_ok = False
+                valid = not mal or mal == "three-columns"
+                if err is not None:
+                    tags.append("load-raised")
+                    if model_ok and seen:
+                        lines.append(f"parload {'-' if sid is None else ustr(sid)} {rl}")
+                        impl.append(("err", errname(err)))
+                    if valid and not ragged:
+                        fail = fail or (f"load_paradigm_from_csv_file raised {type(err).__name__}: {err} on a file "
+                                        f"written by write_to_csv (sessions {[s['id'] for s in c['sessions']]})")
+                    continue
+                if model_ok:
+                    lines.append(f"parload {'-' if sid is None else ustr(sid)} {rl}")
+                    impl.append(("text", self._fmt_loaded(got, sid)))
+                if not valid or ragged:
+                    continue
+                # oracle: the design from the loaded paradigm equals the design from the original
+                loaded = got if sid is None else {sid: got}
+                for (par, spec), s in zip(pars, c["sessions"]):
+                    if s["id"] not in loaded:
+                        if sid is None:
+                            fail = fail or f"session {s['id']!r} missing from the loaded dictionary {sorted(loaded)}"
+                        continue
+                    q = loaded[s["id"]]
+                    if mal == "three-columns":
+                        par = ep.EventRelatedParadigm(s["ids"], s["onsets"])
+                    try:
+                        d1 = dm.make_dmtx(ft, par, c["hrf"], "blank", fir_delays=c["fir_delays"])
+                        d2 = dm.make_dmtx(ft, q, c["hrf"], "blank", fir_delays=c["fir_delays"])
+                    except Exception as e:
+                        fail = fail or (f"make_dmtx on the paradigm loaded from CSV (session {s['id']!r}, "
+                                        f"{s['ptype']}, amplitudes {'given' if s['amps'] is not None else 'absent'}) "
+                                        f"raised {type(e).__name__}: {e}")
+                        continue
+                    if list(d1.names) != list(d2.names) or d1.matrix.shape != d2.matrix.shape or \
+                            not np.allclose(d1.matrix, d2.matrix, rtol=1e-12, atol=1e-12):
+                        fail = fail or (f"design from the paradigm loaded from CSV differs from the design of the "
+                                        f"original paradigm (session {s['id']!r}, {s['ptype']})")
+                    tags.append("roundtrip-design-compared")
+        finally:
+            for f in os.listdir(tmp):
+                os.unlink(os.path.join(tmp, f))
+            os.rmdir(tmp)
+        return {"lines": lines, "impl": impl, "oracle": fail, "nontrivial": True, "tags": tags}
+
+    @staticmethod
+    def _fmt_par(p):
+        blk = p.type == "block"
+        ids = [str(x) for x in p.con_id]
+        on = [float(x) for x in p.onset]
+        du = None if not blk or p.duration is None else [float(x) for x in p.duration]
+        am = None if p.amplitude is None else [float(x) for x in p.amplitude]
+        for nm, arr in (("onset", p.onset), ("amplitude", p.amplitude), ("duration", getattr(p, "duration", None))):
+            if arr is not None and np.asarray(arr).dtype.kind not in "fiu":
+                return f"{nm}-array-of-dtype-{np.asarray(arr).dtype.kind}"
+        return (("block " if blk else "event ") + pstrs(ids) + " " + plist(on) + " " + opt_rats(du) + " "
+                + opt_rats(am))
+
+    def _fmt_loaded(self, got, sid):
+        if sid is not None:
+            return "None" if got is None else self._fmt_par(got)
+        return " ;; ".join(ustr(str(k)) + " " + ("None" if got[k] is None else self._fmt_par(got[k]))
+                           for k in sorted(got))
+
+    # ------------------------------------------------------------------ drifts, kernels, show
     def _polydrift(self, c, hm):
         from nipy.modalities.fmri import design_matrix as dm
-        ft = np.arange(c["n"]) * c["tr"]
+        ft = c.get("t0", 0.0) + np.arange(c["n"]) * c["tr"]
         snap = Snapshot(ft=ft)
-        pol = dm._poly_drift(c["order"], ft)
+        try:
+            pol = dm._poly_drift(c["order"], ft)
+        except Exception as e:
+            return {"lines": [], "impl": [], "nontrivial": True, "tags": ["polydrift", "raised"],
+                    "oracle": f"_poly_drift(order={c['order']}) raised {type(e).__name__}: {e} for frame times "
+                              f"{ft.tolist()}"}
         mut = snap.changed()
-        line = f"polydrift {c['order']} {plist(ft)} {fr(float(ft.max()))}"
-        return {"lines": [line], "impl": [("cols", pol.T.tolist())], "oracle": None,
-                "nontrivial": c["order"] >= 2, "tags": ["polydrift"], "mutated": mut}
+        line = f"polydrift2 {c['order']} {plist(ft)}"
+        fail = None
+        if not np.isfinite(pol).all():
+            fail = f"_poly_drift(order={c['order']}) is not finite for frame times {ft.tolist()}"
+        elif c["order"] >= 1:
+            Gm = pol.T @ pol
+            off = Gm - np.diag(np.diag(Gm))
+            if np.abs(off).max() > 1e-8 * max(1.0, np.abs(Gm).max()):
+                fail = f"polynomial drift columns not mutually orthogonal (max off-diag {np.abs(off).max()})"
+        # pinv-based projection: compare with the exact model only where the monomials are well conditioned
+        tm = np.abs(ft).max()
+        well = fail is None and np.linalg.cond(np.vander(ft / tm, c["order"] + 1)) < 1e6
+        return {"lines": [line] if well else [], "impl": [("cols", pol.T.tolist())] if well else [], "oracle": fail,
+                "nontrivial": c["order"] >= 2, "tags": ["polydrift"] + ([] if well else ["polydrift-ill-conditioned"]),
+                "mutated": mut}
 
     def _kernel(self, c, hm):
         fail = None
@@ -309,15 +763,59 @@ class C07(PropertyCheck):
             h = f(c["tr"], c["os"])
             if abs(h.sum() - 1) > 1e-9:
                 fail = f"{f.__name__}(tr={c['tr']}, oversampling={c['os']}) sums to {h.sum()}"
-        return {"lines": [], "impl": [], "oracle": fail, "nontrivial": True, "tags": ["kernel"],
-                "mutated": None}
+        return {"lines": [], "impl": [], "oracle": fail, "nontrivial": True, "tags": ["kernel"]}
 
-    # ------------------------------------------------------------------
+    def _show(self, c, hm):
+        """DesignMatrix.show / show_contrast draw one tick label per column and leave the matrix alone"""
+        import matplotlib
+        matplotlib.use("Agg")
+        import matplotlib.pyplot as plt
+        from nipy.modalities.fmri import design_matrix as dm
+        rs = np.random.RandomState(c["n"])
+        X = rs.randint(1, 5, size=(c["n"], c["ncols"])).astype(float)
+        names = ["c%d" % k for k in range(c["ncols"])]
+        d = dm.DesignMatrix(X, names)
+        snap = Snapshot(X=X)
+        fail = None
+        try:
+            ax = d.show(rescale=c["rescale"])
+            if [t.get_text() for t in ax.get_xticklabels()] != names:
+                fail = "DesignMatrix.show: tick labels are not the column names"
+            ax2 = d.show_contrast(np.ones(c["ncols"]))
+            if [t.get_text() for t in ax2.get_xticklabels()] != names:
+                fail = "DesignMatrix.show_contrast: tick labels are not the column names"
+        except Exception as e:
+            fail = f"DesignMatrix.show raised {type(e).__name__}: {e}"
+        finally:
+            plt.close("all")
+        return {"lines": [], "impl": [], "oracle": fail, "nontrivial": False, "tags": ["show"],
+                "mutated": snap.changed()}
+
+    # ------------------------------------------------------------------ compare
     def compare(self, case, impl_obs, model_out):
-        kind, val = impl_obs
+        kind, val = impl_obs[0], impl_obs[1]
         if kind == "exact":
             want = frs(val)
             return None if want == model_out else cmp_rats(val, model_out, 0, 0) or "exact text differs"
+        if kind == "exact2":
+            reg, grid = val
+            if " | " not in model_out and model_out.strip() != "|":
+                return f"impl returned a regressor and a grid, model says {model_out[:80]}"
+            mr, _, mg = model_out.partition(" | ")
+            if mr.strip() == "|":
+                mr, mg = "", ""
+            d = None if frs(grid) == mg.strip() else (cmp_rats(grid, mg, 0, 0) or "grid text differs")
+            if d:
+                return "high-resolution grid: " + d
+            d = None if frs(reg) == mr.strip() else (cmp_rats(reg, mr, 0, 0) or "regressor text differs")
+            return ("regressor: " + d) if d else None
+        if kind == "rat":
+            tol = impl_obs[2]
+            return cmp_rats([val], model_out, tol, 0)
+        if kind == "err":
+            return None if model_out == val else f"impl raised {val}, model says {model_out[:120]}"
+        if kind == "text":
+            return None if model_out == val else f"impl={val[:300]} model={model_out[:300]}"
         if kind == "cols":
             if model_out.startswith(("error", "bad-op")):
                 return f"model says {model_out}"
@@ -333,21 +831,73 @@ class C07(PropertyCheck):
                 if not all_close(a, b, 1e-8, tol):
                     return f"column {j}: impl={a[:6]} model={[float(x) for x in b[:6]]}"
             return None
-        if kind == "names":
-            return None if " ".join(val) == model_out else f"impl={val} model={model_out}"
         return "unknown observation kind"
 
+    # ------------------------------------------------------------------ shrink / classify
     def shrink(self, case):
+        k = case["kind"]
         if "onsets" in case and len(case["onsets"]) > 1:
             n = len(case["onsets"])
             for i in range(n):
                 c = dict(case)
-                for k in ("onsets", "durs", "amps"):
-                    c[k] = case[k][:i] + case[k][i + 1:]
+                for key in ("onsets", "durs", "amps"):
+                    c[key] = case[key][:i] + case[key][i + 1:]
                 yield c
-        if case.get("n", 0) > 3 and case["kind"] in ("sample", "regressor"):
+        if case.get("n", 0) > 3 and k in ("sample", "regressor"):
             c = dict(case); c["n"] = case["n"] - 1
             yield c
+        if k in ("sample", "regressor") and case.get("ftdtype", "float64") != "float64":
+            c = dict(case); c["ftdtype"] = "float64"
+            yield c
+        if k == "regressor" and case.get("shift", 1) > 1:
+            c = dict(case); c["shift"] = 1
+            yield c
+        if k == "dmtx":
+            if len(case["conds"]) > 1:
+                for i in range(len(case["conds"])):
+                    c = dict(case); c["conds"] = case["conds"][:i] + case["conds"][i + 1:]
+                    yield c
+            for i, cd in enumerate(case["conds"]):
+                if len(cd["onsets"]) > 1:
+                    c = dict(case); cd2 = dict(cd)
+                    for key in ("onsets", "durs", "amps"):
+                        cd2[key] = cd[key][:1]
+                    c["conds"] = case["conds"][:i] + [cd2] + case["conds"][i + 1:]
+                    yield c
+            if case["add"]["mode"] != "none":
+                c = dict(case); c["add"] = {"mode": "none"}; c["add_names"] = None
+                yield c
+            if case["n"] > 4:
+                c = dict(case); c["n"] = max(4, case["n"] // 2)
+                yield c
+        if k == "csv":
+            if len(case["names"]) > 1:
+                for i in range(len(case["names"])):
+                    c = dict(case)
+                    c["names"] = case["names"][:i] + case["names"][i + 1:]
+                    c["values"] = [r[:i] + r[i + 1:] for r in case["values"]]
+                    yield c
+            if len(case["values"]) > 1:
+                c = dict(case); c["values"] = case["values"][:1]
+                yield c
+            for i, nm in enumerate(case["names"]):
+                if len(nm) > 1:
+                    for j in range(len(nm)):
+                        c = dict(case); c["names"] = list(case["names"]); c["names"][i] = nm[:j] + nm[j + 1:]
+                        yield c
+        if k == "paradigm":
+            if len(case["sessions"]) > 1:
+                for i in range(len(case["sessions"])):
+                    c = dict(case); c["sessions"] = case["sessions"][:i] + case["sessions"][i + 1:]
+                    yield c
+            for i, s in enumerate(case["sessions"]):
+                if len(s["ids"]) > 1:
+                    c = dict(case); s2 = dict(s)
+                    for key in ("ids", "onsets", "durs"):
+                        s2[key] = s[key][:-1]
+                    s2["amps"] = None if s["amps"] is None else s["amps"][:-1]
+                    c["sessions"] = case["sessions"][:i] + [s2] + case["sessions"][i + 1:]
+                    yield c
 
     def classify(self, case, failure):
         return None
